@@ -236,6 +236,8 @@ class Interp(HeapMixin, OpsMixin, StmtMixin, CallMixin):
                 return self.stdlib_name(org)
         if name in E.BUILTIN_EXC:
             return VExcClass(name)
+        if relpath and relpath.startswith("<") and name in ("hashlib", "json", "re", "math", "time", "datetime"):
+            return VModule(name if name != "datetime" else "datetime.datetime")
         if hasattr(__import__("builtins"), name):
             return VBuiltin(name)
         ci = self.repo.find_class(name, None) if name[:1].isupper() else None
